@@ -202,7 +202,27 @@ def extract(mode, rc, so, se, rules_names, data_names):
                 return obs
             j = json.loads(so)
             obs["nresults"] = sum(len(r.get("results", [])) for r in j["runs"])
-            obs["wf"] = j.get("version") == "2.1.0"
+            obs["wf"] = j.get("version") == "2.1.0" and len(j["runs"]) == 1
+            # shape: artifacts, and per (data file, ruleId) the number of results
+            uidx = {(n[1:] if n.startswith("/") else n): k for n, k in didx.items()}
+            counts, arts, wf = {}, [], True
+            for run in j["runs"]:
+                for a in run.get("artifacts", []):
+                    arts.append(uidx.get(a["location"]["uri"], 0))
+                for r in run.get("results", []):
+                    locs = r.get("locations", [])
+                    if len(locs) != 1 or r.get("level") != "error" or not isinstance(r.get("message", {}).get("text"), str):
+                        wf = False
+                        continue
+                    pl = locs[0]["physicalLocation"]
+                    reg = pl["region"]
+                    if reg["startLine"] < 1 or reg["startColumn"] < 1:
+                        wf = False
+                    key = (uidx.get(pl["artifactLocation"]["uri"], 0), r["ruleId"])
+                    counts[key] = counts.get(key, 0) + 1
+            obs["arts"] = arts
+            obs["regions_wf"] = wf
+            obs["sres"] = [{"d": d, "rid": rid, "rule": "?" + rid, "n": n} for (d, rid), n in sorted(counts.items())]
         elif fmt == "junit":
             obs["view"] = "perpair"
             if not so.strip():
@@ -358,6 +378,14 @@ def run_job(wd, i, rules, data, params, mode, entry, params_docs=None, events=No
             "params": params_docs or [], "params_used": params_used}
     obs = extract(mode, rc, so, se, rules_names, data_names)
     assign_pairs_in_order(obs, line)
+    if "sres" in obs:
+        # ruleId is the upper-cased rule name (up to the first dot): map it back to the name
+        back = {}
+        for rf in line["rules"]:
+            for rl in rf["prog"]["rules"]:
+                back.setdefault(rl["n"].split(".")[0].upper(), rl["n"])
+        for e in obs["sres"]:
+            e["rule"] = back.get(e["rid"], "?" + e["rid"])
     line["obs"] = obs
     line["cmd"] = {"args": [a.replace(wd.path + "/", "") for a in args], "stderr": se[:700], "stdout_head": so[:300]}
     return line
